@@ -1,4 +1,4 @@
-import DuneVerif.Proofs.C04
+import DuneVerif.Proofs.C04H
 /-!
 C04 — RemoteIndices equals the pairwise intersection of the published index sets.
 
@@ -42,13 +42,24 @@ example : SortedW [⟨5, 0⟩, ⟨5, 3⟩, ⟨7, 1⟩] ∧ SortedG [⟨2, 0, 0, 
     unpackLoop true [⟨5, 0⟩, ⟨5, 3⟩, ⟨7, 1⟩] [⟨2, 0, 0, true⟩, ⟨5, 1, 1, true⟩, ⟨5, 2, 2, true⟩, ⟨7, 3, 1, true⟩]
       = [⟨0, ⟨5, 1, 1, true⟩⟩, ⟨0, ⟨5, 2, 2, true⟩⟩, ⟨3, ⟨5, 1, 1, true⟩⟩, ⟨3, ⟨5, 2, 2, true⟩⟩] := by decide
 
-/-- the buffer position after `unpackIndices`: exactly `n` entries are consumed (needed by the two-set path) -/
-theorem unpack_consumes_all (fromSelf : Bool) (buf : List Wire) (n : Nat) (loc : List Pair) :
-    (unpackIndices fromSelf buf n loc).2 = buf.drop n := by
+/-- **unpack_cursor_refines**: the faithful single-list `unpackIndices` — one `MPI_Unpack` per entry read, rewind test on
+    the entry just unpacked, trailing unpack loop — computes the list-level merge-join and leaves the position behind
+    the `n` announced entries (for a buffer that holds them). -/
+theorem unpack_cursor_refines (fromSelf : Bool) (buf : List Wire) (n : Nat) (loc : List Pair) (h : n ≤ buf.length) :
+    F.unpackIndices fromSelf buf n loc = (if n = 0 then [] else unpackLoop fromSelf (buf.take n) loc, buf.drop n) := by
+  rw [F.unpackIndices_eq' fromSelf buf n loc h]
   unfold unpackIndices
-  split
-  · rename_i h; simp [h]
-  · rfl
+  split <;> simp_all
+
+/-- the buffer position after the faithful `unpackIndices`: exactly `n` entries are consumed, whatever the loop did
+    (exhausted local list, break after the last entry, rewinds) — needed by the two-set path -/
+theorem unpack_consumes_all (fromSelf : Bool) (buf : List Wire) (n : Nat) (loc : List Pair) (h : n ≤ buf.length) :
+    (F.unpackIndices fromSelf buf n loc).2 = buf.drop n := by
+  rw [unpack_cursor_refines fromSelf buf n loc h]
+
+/-- local list exhausted after the first of four announced entries: the three others are still skipped -/
+example : F.unpackIndices false [⟨1, 0⟩, ⟨3, 2⟩, ⟨3, 1⟩, ⟨9, 1⟩, ⟨20, 0⟩] 4 [⟨1, 0, 1, true⟩]
+    = ([⟨0, ⟨1, 0, 1, true⟩⟩], [⟨20, 0⟩]) := by decide
 
 /-- the two-list `unpackIndices` (one remote set against our source and target sets) -/
 theorem unpackBoth_spec_strict (remote : List Wire) (ls ld : List Pair)
@@ -234,22 +245,8 @@ example : (buildRemote false exSys 1 [0]).sendList 1 = [] ∧
 /-- **arrival_order_irrelevant**: in neighbour mode the result does not depend on the order in which
     `MPI_Probe(MPI_ANY_SOURCE)` delivers the neighbours' messages. -/
 theorem arrival_order_irrelevant (ign : Bool) (sys : System) (p : Nat) (o₁ o₂ : List Nat) (h : o₁.Perm o₂) :
-    buildRemote ign sys p o₁ = buildRemote ign sys p o₂ := by
-  rw [buildRemote_eq, buildRemote_eq]
-  split
-  · rfl
-  · unfold receiveAll
-    have s1 := foldAdd_spec (fun q => fromRank ign sys p q false) (sources sys p o₁) _ (sorted_selfPart ign sys p)
-    have s2 := foldAdd_spec (fun q => fromRank ign sys p q false) (sources sys p o₂) _ (sorted_selfPart ign sys p)
-    apply RMap.ext s1.1 s2.1
-    intro k
-    rw [s1.2 k, s2.2 k]
-    have : k ∈ sources sys p o₁ ↔ k ∈ sources sys p o₂ := by
-      unfold sources
-      split
-      · exact Iff.rfl
-      · exact h.mem_iff
-    simp only [this]
+    buildRemote ign sys p o₁ = buildRemote ign sys p o₂ :=
+  buildRemote_perm ign sys p o₁ o₂ h
 
 example : ([2, 1] : List Nat).Perm [1, 2] ∧ buildRemote false exSys 0 [2, 1] = buildRemote false exSys 0 [1, 2] := by decide
 
@@ -364,5 +361,259 @@ example : (({} : RIState).rebuild false 1 1 (fun _ => [])).isSynced
       ((Seqs.mk 1 1).applyAll true [.other, .target]).src ((Seqs.mk 1 1).applyAll true [.other, .target]).dst = false ∧
     (({} : RIState).rebuild false 1 1 (fun _ => [])).isSynced
       ((Seqs.mk 1 1).applyAll true [.other]).src ((Seqs.mk 1 1).applyAll true [.other]).dst = true := by decide
+
+/-! ### the specification read as a set; who appears; symmetry -/
+
+/-- **mem_spec_iff**: `spec A B` is the set of doc/comm/communication.tex (eqs. ri_s_set / ri_t_set): an entry is in it
+    exactly if its local pair is in `A`, a pair with the same global index is in `B`, and the entry carries that pair's
+    attribute. -/
+theorem mem_spec_iff (A B : List Pair) (hB : StrictG B) (x : RIdx) :
+    x ∈ spec A B ↔ x.loc ∈ A ∧ ∃ b ∈ B, b.g = x.loc.g ∧ b.a = x.ra :=
+  F.mem_spec_iff' A B hB x
+
+/-- … and it has exactly one entry per such global index, in ascending order -/
+theorem spec_one_per_global (A B : List Pair) (hA : StrictG A) : StrictR (spec A B) := strictR_join hA false _
+
+example : spec [⟨1, 0, 0, true⟩, ⟨2, 1, 1, true⟩] [⟨2, 5, 3, true⟩, ⟨4, 6, 0, true⟩] = [⟨3, ⟨2, 1, 1, true⟩⟩] := by decide
+
+/-- **appears_iff**: another rank `q` has an entry in `p`'s map exactly if they share something (in either
+    direction); together with `rebuild_spec`: processes sharing nothing do not appear, all others do. -/
+theorem appears_iff (ign : Bool) (sys : System) (hs : sys.Strict) (p q : Nat) (hp : p < sys.P) (hq : q < sys.P)
+    (hpq : q ≠ p) (order : List Nat) (hm : GoodMode ign sys p order) :
+    (buildRemote ign sys p order).find q ≠ none ↔
+      spec ((sys.rank p).srcPairs ign) ((sys.rank q).dstPairs ign) ≠ [] ∨
+      spec ((sys.rank p).dstPairs ign) ((sys.rank q).srcPairs ign) ≠ [] := by
+  have hrs := rebuild_spec ign sys hs p q hp hq hpq order hm
+  unfold RMap.sendList RMap.recvList at hrs
+  cases hf : (buildRemote ign sys p order).find q with
+  | none =>
+    rw [hf] at hrs
+    simp only [Option.map_none, Option.getD_none] at hrs
+    simp [← hrs.1, ← hrs.2]
+  | some v =>
+    rw [hf] at hrs
+    simp only [Option.map_some, Option.getD_some] at hrs
+    have := no_empty_neighbour ign sys p order (q, v) (F.RMap.mem_of_find hf)
+    simp only [← hrs.1, ← hrs.2]
+    simpa using this
+
+/-- the map only has entries for ranks of the communicator -/
+theorem keys_are_ranks (ign : Bool) (sys : System) (p : Nat) (hp : p < sys.P) (order : List Nat)
+    (hv : ValidSources sys p order) : ∀ e ∈ buildRemote ign sys p order, e.1 < sys.P := by
+  intro e he
+  have hf := find_buildRemote ign sys p order hv hp e.1
+  have hsome : (buildRemote ign sys p order).find e.1 ≠ none := by
+    have hsorted := sorted_buildRemote ign sys p order
+    intro hn
+    -- an entry that is in the map is found
+    have : ∀ (m : RMap), m.SortedKeys → e ∈ m → m.find e.1 ≠ none := by
+      intro m hm hem
+      induction m with
+      | nil => simp at hem
+      | cons x xs ih =>
+        obtain ⟨k', v'⟩ := x
+        unfold RMap.find
+        by_cases c : e.1 = k'
+        · simp [c]
+        · rw [if_neg c]
+          rcases List.mem_cons.mp hem with e' | e'
+          · subst e'; exact absurd rfl c
+          · exact ih (List.pairwise_cons.mp hm).2 e'
+    exact this _ hsorted he hn
+  rw [hf] at hsome
+  by_cases c : e.1 = p
+  · rw [c]; exact hp
+  · rw [if_neg c] at hsome
+    by_cases c2 : e.1 ∈ sources sys p order
+    · exact (hv e.1 c2).1
+    · rw [if_neg c2] at hsome
+      exact absurd rfl hsome
+
+/-- **send_recv_mirror**: what `p` plans to send to `q` is what `q` expects to receive from `p`: the two lists name the
+    same global indices in the same order, `p`'s entry carrying (own attribute, attribute on `q`) and `q`'s entry the
+    same two attributes seen from the other side.  (Both ranks in ring mode or with covering hints.) -/
+theorem send_recv_mirror (ign : Bool) (sys : System) (hs : sys.Strict) (p q : Nat) (hp : p < sys.P) (hq : q < sys.P)
+    (hpq : q ≠ p) (op oq : List Nat) (hmp : GoodMode ign sys p op) (hmq : GoodMode ign sys q oq) :
+    ((buildRemote ign sys p op).sendList q).map (fun x => (x.loc.g, x.loc.a, x.ra)) =
+    ((buildRemote ign sys q oq).recvList p).map (fun x => (x.loc.g, x.ra, x.loc.a)) := by
+  rw [(rebuild_spec ign sys hs p q hp hq hpq op hmp).1, (rebuild_spec ign sys hs q p hq hp (Ne.symm hpq) oq hmq).2]
+  have hS := strictG_published (hs p hp).1 ign
+  have hD : StrictG ((sys.rank q).dstPairs ign) := by
+    unfold RankData.dstPairs RankData.tgtOf
+    split
+    · exact strictG_published (hs q hq).2 ign
+    · exact strictG_published (hs q hq).1 ign
+  exact F.spec_mirror _ _ hS hD
+
+example : ((buildRemote false exSys 0 [2, 1]).sendList 1).map (fun x => (x.loc.g, x.loc.a, x.ra)) = [(1, 0, 3)] ∧
+    ((buildRemote false exSys 1 [0]).recvList 0).map (fun x => (x.loc.g, x.ra, x.loc.a)) = [(1, 0, 3)] := by decide
+
+/-! ### the protocol underneath: regenerated decisions, ring, neighbour network -/
+
+/-- the bookkeeping of `rebuild`, `free` and `setIndexSets` as read from the source is what the model performs
+    (`RankW.built`, `RankW.free`, `World.step`): `rebuild` frees, builds, then records both sequence numbers,
+    `firstBuild=false` and `publicIgnored`; `free` empties the map and makes the next rebuild a real one; `setIndexSets`
+    frees (a function the translator cannot locate is `none` and left to the differential run). -/
+theorem gen_bookkeeping :
+    Gen.rebuildAssigns = ["destSeqNo_=target_->seqNo()", "firstBuild=false", "publicIgnored=ignorePublic",
+      "sourceSeqNo_=source_->seqNo()"] ∧
+    Gen.rebuildBefore = ["free()"] ∧ Gen.freeClears ≠ some false ∧ Gen.freeMarksFirstBuild ≠ some false ∧
+    Gen.setIndexSetsFrees ≠ some false := by decide
+
+/-- the generated `isSynced()` / rebuild test are the ones `synced_iff` speaks about -/
+theorem faithful_isSynced (r : F.RankW) :
+    r.isSynced = r.ri.isSynced (r.obj r.srcObj).seq (r.obj r.tgtObj).seq := rfl
+
+theorem faithful_rebuild_test (r : F.RankW) (ign : Bool) :
+    r.needs ign = (r.ri.firstBuild || ign != r.ri.publicIgnored ||
+      !r.ri.isSynced (r.obj r.srcObj).seq (r.obj r.tgtObj).seq) := rfl
+
+/-- **ring_partners_agree**: the rank `p` receives from sends to `p`; it is a rank of the communicator. -/
+theorem ring_partners_agree (p P : Nat) (hp : p < P) :
+    (Gen.ringRecvFrom p P).toNat < P ∧ (Gen.ringSendTo (Gen.ringRecvFrom p P).toNat P).toNat = p := by
+  have hP : 0 < P := by omega
+  rw [F.ringRecvFrom_eq hP, F.ringSendTo_eq]
+  refine ⟨Nat.mod_lt _ hP, ?_⟩
+  by_cases h0 : p = 0
+  · subst h0
+    have e1 : (0 + P - 1) % P = P - 1 := by rw [Nat.zero_add]; exact Nat.mod_eq_of_lt (by omega)
+    rw [e1]
+    have : P - 1 + 1 = P := by omega
+    rw [this, Nat.mod_self]
+  · have e1 : (p + P - 1) % P = p - 1 := by
+      have : p + P - 1 = (p - 1) + P := by omega
+      rw [this, Nat.add_mod_right]
+      exact Nat.mod_eq_of_lt (by omega)
+    rw [e1]
+    have : p - 1 + 1 = p := by omega
+    rw [this]
+    exact Nat.mod_eq_of_lt hp
+
+/-- **ring_buffers_distinct**: in every round the buffer sent and the buffer received into differ (both are 0 or 1) —
+    so a rank never overwrites what it is sending. -/
+theorem ring_buffers_distinct (k : Nat) :
+    Gen.ringOutBuf k ≠ Gen.ringInBuf k ∧ (Gen.ringInBuf k = 0 ∨ Gen.ringInBuf k = 1) ∧
+    (Gen.ringOutBuf k = 0 ∨ Gen.ringOutBuf k = 1) := by
+  have h : Gen.ringInBuf (k : Int) = ((k % 2 : Nat) : Int) := F.ringInBuf_eq k
+  have h2 : Gen.ringOutBuf (k : Int) = 1 - Gen.ringInBuf (k : Int) := rfl
+  rw [h2, h]
+  omega
+
+/-- **ring_delivers**: forwarding works — after `k` ring rounds (`k < P`) rank `p` holds, in the buffer it received into,
+    the *original* message of rank `(p+P-k)%P`, and that is the rank `buildRemote` labels the content with. -/
+theorem ring_delivers (P : Nat) (msgs : List Msg) (hl : msgs.length = P) (k p : Nat) (hk : k < P) (hp : p < P) :
+    ((F.ringState P msgs k).getD p default).get (Gen.ringInBuf k) = msgs.getD ((p + P - k) % P) default ∧
+    (Gen.ringOrigin p P k).toNat = (p + P - k) % P ∧ (p + P - k) % P < P := by
+  have held : ∀ k, k < P → F.Held P msgs k (F.ringState P msgs k) := by
+    intro k
+    induction k with
+    | zero => intro _; exact F.held_init P msgs hl
+    | succ j ih => intro hj; exact F.held_step (by omega) (ih (by omega))
+  exact ⟨held k hk p hp, F.ringOrigin_eq (by omega), Nat.mod_lt _ (by omega)⟩
+
+/-- three ranks, two rounds: rank 0 ends with the message of rank 1 (two places before it) in buffer 0 -/
+example : let msgs : List Msg := [⟨false, 0, 0, []⟩, ⟨true, 1, 0, [⟨7, 1⟩]⟩, ⟨false, 2, 0, [⟨1, 0⟩, ⟨2, 0⟩]⟩]
+    (((F.ringState 3 msgs 2).getD 0 default).get (Gen.ringInBuf 2)).nS = 1 := by decide
+
+/-- **consistent_hints_network**: with consistent (symmetric, in-range) hints the ranks that send to `p` are exactly
+    the ranks `p` waits for; hence with hints on every rank and any arrival orders, or with no hints anywhere, the
+    collective call returns on every rank (`netOK`). -/
+theorem consistent_hints_network (sys : System) (arrivals : Nat → List Nat) :
+    (F.SymHints sys → ∀ p, p < sys.P → F.senders sys p = nbIds (sys.rank p) p) ∧
+    (F.AllRing sys → F.netOK sys arrivals = true) ∧
+    (F.AllNb sys → F.SymHints sys → (∀ p, p < sys.P → (arrivals p).Perm (nbIds (sys.rank p) p)) →
+      F.netOK sys arrivals = true) :=
+  ⟨fun h _ hp => F.senders_eq_nbIds sys h hp, F.netOK_ring sys arrivals, F.netOK_nb sys arrivals⟩
+
+theorem exSys_sym : F.SymHints exSys := by
+  intro p hp
+  have : p = 0 ∨ p = 1 ∨ p = 2 := by simp [exSys] at hp; omega
+  rcases this with h | h | h <;> subst h <;> decide
+
+example : F.AllNb exSys ∧ F.senders exSys 0 = [1, 2] ∧ F.netOK exSys (fun p => if p = 0 then [2, 1] else F.senders exSys p) = true := by
+  refine ⟨?_, by decide, by decide⟩
+  intro p hp
+  have : p = 0 ∨ p = 1 ∨ p = 2 := by simp [exSys] at hp; omega
+  rcases this with h | h | h <;> subst h <;> decide
+
+/-- **collective_refines**: the faithful collective `buildRemote` (generated decisions, entry counts and buffer cursor,
+    ring state machine on all ranks, network-level neighbour exchange) returns, on a working network, on every rank
+    the map of the per-rank model — about which `rebuild_spec`, `rebuild_sorted`, … speak. -/
+theorem collective_refines (ign : Bool) (sys : System) (arrivals : Nat → List Nat)
+    (hn : F.netOK sys arrivals = true) (hP : 0 < sys.P) :
+    ∃ maps, F.buildAll ign sys arrivals = some maps ∧ maps.length = sys.P ∧
+      ∀ p, p < sys.P → maps.getD p [] = buildRemote ign sys p (arrivals p) :=
+  F.buildAll_refines ign sys arrivals hn hP
+
+example : (F.buildAll false exSys (F.stdArrivals exSys)).map (fun maps => maps.getD 0 [])
+    = some (buildRemote false exSys 0 [1, 2]) := by decide
+
+/-! ### histories -/
+
+/-- **history_rebuild_fresh**: for every history of resizes (any rank, any index set object, any new contents), `free`,
+    `setIndexSets` and collective rebuilds, starting from freshly constructed objects: a collective `rebuild<ign>()`
+    that returns leaves every rank with exactly the lists `buildRemote` computes from the *current* index sets of
+    all ranks (also when `rebuild` found nothing to do), in sync, with `publicIgnored = ign`.
+    (A collective rebuild on which the ranks disagree — some resized, others did not — does not return: `World.rebuild`
+    is `none`, and so is the run.) -/
+theorem history_rebuild_fresh (w0 : F.World) (h0 : ∀ r ∈ w0, r.ri.firstBuild = true) (evs : List F.Ev)
+    (hc : ∀ e ∈ evs, e.core = true) (ign : Bool) (arrivals : Nat → List Nat) (w : F.World)
+    (hr : F.World.run w0 (evs ++ [F.Ev.rebuild ign arrivals]) = some w) (p : Nat) (hp : p < w.length) :
+    (w.getD p default).ri.remote = buildRemote ign w.sys p (F.senders w.sys p) ∧
+    (w.getD p default).isSynced = true ∧ (w.getD p default).ri.publicIgnored = ign := by
+  have := F.run_then_rebuild_fresh w0 h0 evs hc ign arrivals w hr p hp
+  exact ⟨this.remote, this.synced, this.pub⟩
+
+/-- **history_rebuild_spec**: … and therefore, when the current decomposition has no repeated global indices and the
+    hints are consistent and covering (or absent), the lists are the pairwise intersections of the *current*
+    published index sets. -/
+theorem history_rebuild_spec (w0 : F.World) (h0 : ∀ r ∈ w0, r.ri.firstBuild = true) (evs : List F.Ev)
+    (hc : ∀ e ∈ evs, e.core = true) (ign : Bool) (arrivals : Nat → List Nat) (w : F.World)
+    (hr : F.World.run w0 (evs ++ [F.Ev.rebuild ign arrivals]) = some w)
+    (hs : w.sys.Strict) (hsym : F.SymHints w.sys) (p q : Nat) (hp : p < w.length) (hq : q < w.length) (hpq : q ≠ p)
+    (hcov : nbIds (w.sys.rank p) p = [] ∨ HintsCover ign w.sys p) :
+    (w.getD p default).ri.remote.sendList q = spec ((w.sys.rank p).srcPairs ign) ((w.sys.rank q).dstPairs ign) ∧
+    (w.getD p default).ri.remote.recvList q = spec ((w.sys.rank p).dstPairs ign) ((w.sys.rank q).srcPairs ign) := by
+  rw [(history_rebuild_fresh w0 h0 evs hc ign arrivals w hr p hp).1]
+  apply rebuild_spec ign w.sys hs p q hp hq hpq
+  rcases hcov with h | h
+  · exact Or.inl h
+  · refine Or.inr ⟨⟨?_, fun x hx => (hsym p hp x hx).1⟩, h⟩
+    rw [F.senders_eq_nbIds w.sys hsym hp]
+
+/-- **world_synced_iff**: in the faithful world, a rank that is in sync (as it is after every collective rebuild that
+    returned, `history_rebuild_fresh`) stays in sync through any sequence of resizes — of any index set object on any
+    rank — exactly if none of them resized the object that is *its* source or target index set. -/
+theorem world_synced_iff (w : F.World) (p : Nat) (hp : p < w.length) (hsy : (w.getD p default).isSynced = true)
+    (rs : List (Nat × Nat × List Pair)) :
+    ((w.resizes rs).getD p default).isSynced = true ↔
+      ∀ e ∈ rs, e.1 = p → (w.getD p default).refers e.2.1 = false :=
+  F.world_synced_iff' w p hp hsy rs
+
+/-- rank 0 uses objects 0 (source) and 1 (target): resizing object 2 of rank 0 and object 0 of rank 1 keeps rank 0 in
+    sync, resizing its target object does not -/
+example : let w : F.World := [{ tgtObj := 1, ri := { sourceSeqNo := 0, destSeqNo := 0 } }, {}]
+    (w.getD 0 default).isSynced = true ∧
+    ((w.resizes [(0, 2, []), (1, 0, [])]).getD 0 default).isSynced = true ∧
+    ((w.resizes [(0, 2, []), (0, 1, [])]).getD 0 default).isSynced = false := by decide
+
+/-- two ranks, one index set each: build, rank 1 gets global index 2 as well, both ranks resize (rank 0 without a
+    change), rebuild: rank 0 now lists index 2 for rank 1; a second rebuild changes nothing; a rebuild after a
+    resize on rank 1 only does not return -/
+def exWorld : F.World := [{ o0 := { pairs := [⟨1, 0, 0, true⟩, ⟨2, 1, 0, true⟩] } }, { o0 := { pairs := [⟨1, 0, 1, true⟩] } }]
+def exEvs : List F.Ev :=
+  [.rebuild false (fun _ => []), .resize 1 0 [⟨1, 0, 1, true⟩, ⟨2, 1, 3, true⟩], .resize 0 0 [⟨1, 0, 0, true⟩, ⟨2, 1, 0, true⟩]]
+
+example : (∀ r ∈ exWorld, r.ri.firstBuild = true) ∧ (∀ e ∈ exEvs, e.core = true) := by decide
+
+example : ((F.World.run exWorld (exEvs ++ [.rebuild false (fun _ => [])])).map
+      fun w => ((w.getD 0 default).ri.remote.sendList 1).map (fun x => (x.loc.g, x.ra)))
+    = some [(1, 1), (2, 3)] := by decide
+
+example : ((F.World.run exWorld (exEvs ++ [.rebuild false (fun _ => []), .rebuild false (fun _ => [])])).map
+      fun w => ((w.getD 0 default).ri.remote.sendList 1).map (fun x => (x.loc.g, x.ra)))
+    = some [(1, 1), (2, 3)] ∧
+    (F.World.run exWorld [.rebuild false (fun _ => []), .resize 1 0 [], .rebuild false (fun _ => [])]).isNone = true := by
+  decide
 
 end DV.C04
